@@ -109,7 +109,7 @@ def snapshot(sched, jobs):
     return members, req, dangling, foreign
 
 
-def evaluate(case):
+def evaluate_inner(case):
     res = Result()
     n = case['n']
     with quiet():
@@ -256,3 +256,15 @@ def sweeps(tier):
         out.append(('all DAGs on 5 nodes x every operation and argument', 64,
                     lambda k: _enum(5, k, 64)))
     return out
+
+
+def evaluate(case):
+    from ..structural import user_stack
+    with user_stack():
+        try:
+            return evaluate_inner(case)
+        except RecursionError as exc:
+            res = Result()
+            res.fail('%s:recursion-error' % ID, "RecursionError with 950 stack frames available "
+                     "(graph of %s nodes): %s" % (case.get('n', '?'), exc))
+            return res
